@@ -217,3 +217,148 @@ def _make(self, name, st, bv=None):
 
 T.make = _make
 T.mac = staticmethod(lambda: T('mac'))
+
+
+# ---------------------------------------------------------------------------
+# Bulk cipher objects (the objects returned by tlslite.utils.cipherfactory).
+# Assumed interface contract (justified per implementation under C09):
+#   block / stream cipher:  encrypt(p) / decrypt(c) keep the length, depend on
+#       (key, chaining state, input) only, advance the chaining state, and
+#       Dec(k, s, Enc(k, s, p)) == p;  block ciphers assert len % block_size == 0
+#   AEAD: seal(nonce, p, aad) has length len(p)+tagLength;
+#       open(nonce, c, aad) is None or the plaintext; Open(k,n,Seal(k,n,p,a),a) == p
+
+Enc = uf('Enc', [Val, Seq, Seq], Seq, seq_ext=[1, 2])
+Dec = uf('Dec', [Val, Seq, Seq], Seq, seq_ext=[1, 2])
+EncNext = uf('EncNext', [Val, Seq, Seq], Seq, seq_ext=[1, 2])
+DecNext = uf('DecNext', [Val, Seq, Seq], Seq, seq_ext=[1, 2])
+Seal = uf('Seal', [Val, Seq, Seq, Seq], Seq, seq_ext=[1, 2, 3])
+Open = uf('Open', [Val, Seq, Seq, Seq], Seq, seq_ext=[1, 2, 3])
+OpenOk = uf('OpenOk', [Val, Seq, Seq, Seq], smt.B, seq_ext=[1, 2, 3])
+
+
+def _cipher_axioms():
+    k = z3.Const('ck', Val)
+    s, p, n, a = z3.Consts('cs cp cn ca', Seq)
+    A = []
+    A.append(z3.ForAll([k, s, p], z3.And(slen(Enc(k, s, p)) == slen(p), isb(Enc(k, s, p)) == isb(p)), patterns=[Enc(k, s, p)]))
+    A.append(z3.ForAll([k, s, p], z3.And(slen(Dec(k, s, p)) == slen(p), isb(Dec(k, s, p)) == isb(p)), patterns=[Dec(k, s, p)]))
+    A.append(z3.ForAll([k, s, p], Dec(k, s, Enc(k, s, p)) == p, patterns=[Enc(k, s, p)]))
+    # the receiver's chaining state follows the sender's
+    A.append(z3.ForAll([k, s, p], DecNext(k, s, Enc(k, s, p)) == EncNext(k, s, p), patterns=[Enc(k, s, p)]))
+    A.append(z3.ForAll([k, n, p, a], isb(Seal(k, n, p, a)) == isb(p), patterns=[Seal(k, n, p, a)]))
+    A.append(z3.ForAll([k, n, p, a], z3.And(OpenOk(k, n, Seal(k, n, p, a), a), Open(k, n, Seal(k, n, p, a), a) == p),
+                       patterns=[Seal(k, n, p, a)]))
+    A.append(z3.ForAll([k, n, p, a], isb(Open(k, n, p, a)) == isb(p), patterns=[Open(k, n, p, a)]))
+    return A
+
+
+smt.AXIOMS.extend(_cipher_axioms())
+
+
+class CipherModel(object):
+    """fields: key (opaque), state (Seq: chaining state), isBlockCipher, isAEAD (bool),
+    block_size, tagLength, nonceLength (int), name (VStr)."""
+
+    def getattr(self, ex, v, name, st):
+        if name in ('encrypt', 'decrypt', 'seal', 'open'):
+            return VPy(SpecFn(getattr(self, 'm_' + name)(v), name))
+        return None
+
+    def _crypt(self, v, F, Next, what):
+        def f(ex, args, kw, st, fr, node):
+            d = args[0]
+            if not isinstance(d, VSeq):
+                raise Unsupported('%s(%r)' % (what, d))
+            key = st.heap[(v.oid, 'key')]
+            state = st.heap[(v.oid, 'state')]
+            isblock = st.heap[(v.oid, 'isBlockCipher')]
+            bs = st.heap[(v.oid, 'block_size')]
+            res = []
+            bad_len = z3.And(truthy(isblock), slen(d.t) % bs.t != 0)
+            ok, bad = ex.split(st, z3.Not(bad_len))
+            if bad is not None:
+                res.append(ex.raise_(bad, AssertionError, '%s of non-block-multiple line %d' % (what, getattr(node, 'lineno', 0))))
+            if ok is not None:
+                out = VSeq(F(to_val(key), state.t, d.t), 'byte', 'bytearray')
+                ok.heap[(v.oid, 'state')] = VSeq(Next(to_val(key), state.t, d.t), 'byte')
+                ok.assume(z3.And(slen(out.t) == slen(d.t), isb(out.t) == isb(d.t)))
+                res.append(Outcome('normal', ok, out))
+            return res
+        return f
+
+    def m_encrypt(self, v):
+        return self._crypt(v, Enc, EncNext, 'encrypt')
+
+    def m_decrypt(self, v):
+        return self._crypt(v, Dec, DecNext, 'decrypt')
+
+    def m_seal(self, v):
+        def f(ex, args, kw, st, fr, node):
+            nonce, data, aad = args
+            key = st.heap[(v.oid, 'key')]
+            tl = st.heap[(v.oid, 'tagLength')]
+            out = VSeq(Seal(to_val(key), nonce.t, data.t, aad.t), 'byte', 'bytearray')
+            st.assume(z3.And(slen(out.t) == slen(data.t) + tl.t, isb(out.t) == isb(data.t)))
+            return [Outcome('normal', st, out)]
+        return f
+
+    def m_open(self, v):
+        def f(ex, args, kw, st, fr, node):
+            nonce, data, aad = args
+            key = st.heap[(v.oid, 'key')]
+            tl = st.heap[(v.oid, 'tagLength')]
+            okc = OpenOk(to_val(key), nonce.t, data.t, aad.t)
+            res = []
+            t, fl = ex.split(st, okc)
+            if fl is not None:
+                res.append(Outcome('normal', fl, VNone()))
+            if t is not None:
+                out = VSeq(Open(to_val(key), nonce.t, data.t, aad.t), 'byte', 'bytearray')
+                t.assume(z3.And(slen(out.t) == slen(data.t) - tl.t, isb(out.t) == isb(data.t), slen(data.t) >= tl.t))
+                res.append(Outcome('normal', t, out))
+            return res
+        return f
+
+
+REG.models['Cipher'] = CipherModel()
+
+
+def make_cipher(name, st, kind, cname=None, block_size=None):
+    """kind: 'block' | 'stream' | 'aead'"""
+    o = st.alloc('Cipher')
+    st.fresh_objs.discard(o.oid)
+    st.heap[(o.oid, 'key')] = VOpaque(z3.Const(fresh_name(name + '.key'), Val))
+    sv = VSeq(z3.Const(fresh_name(name + '.state'), Seq), 'byte')
+    st.assume(isb(sv.t))
+    st.heap[(o.oid, 'state')] = sv
+    st.heap[(o.oid, 'isBlockCipher')] = VBool(z3.BoolVal(kind == 'block'))
+    st.heap[(o.oid, 'isAEAD')] = VBool(z3.BoolVal(kind == 'aead'))
+    bs = VInt(z3.Int(fresh_name(name + '.block_size'))) if block_size is None else VInt(block_size)
+    st.heap[(o.oid, 'block_size')] = bs
+    tl = VInt(z3.Int(fresh_name(name + '.tagLength')))
+    nl = VInt(z3.Int(fresh_name(name + '.nonceLength')))
+    st.heap[(o.oid, 'tagLength')] = tl
+    st.heap[(o.oid, 'nonceLength')] = nl
+    st.heap[(o.oid, 'name')] = VStr(cname or {'block': 'aes128', 'stream': 'rc4', 'aead': 'aes128gcm'}[kind])
+    return o
+
+
+def _make2(self, name, st, bv=None):
+    if self.kind == 'cipher':
+        return make_cipher(name, st, self.kw['ckind'], self.kw.get('cname'), self.kw.get('block_size'))
+    return _make(self, name, st, bv)
+
+
+T.make = _make2
+T.cipher = staticmethod(lambda ckind, cname=None, block_size=None: T('cipher', ckind=ckind, cname=cname, block_size=block_size))
+
+
+def consistency_witnesses():
+    """Ground terms that exercise the cipher axioms with non-byte sequences."""
+    k = z3.Const('w_k', Val)
+    big = smt.s_single(z3.IntVal(300))
+    sm = smt.s_single(z3.IntVal(3))
+    ts = [Enc(k, sm, big), Dec(k, sm, Enc(k, sm, big)), Seal(k, sm, big, sm), Open(k, sm, Seal(k, sm, big, sm), sm),
+          Enc(k, sm, sm), Dec(k, sm, sm), Open(k, sm, sm, sm), Hmac(k, big)]
+    return [slen(t) >= 0 for t in ts] + [isb(t) == isb(t) for t in ts]
